@@ -1,4 +1,5 @@
 import SlotVerif.Driver.SlotMapDrv
+import SlotVerif.Driver.SlotDrv
 /-! `svdriver`: reads one case per line `<suite> <body>`, prints one answer line per case. -/
 open SV.Drv
 
@@ -9,6 +10,7 @@ def dispatch (line : String) : String :=
     let body := " ".intercalate rest
     match suite with
     | "sm" => smRun body
+    | "slot" => slotRun body
     | _ => "bad-suite"
   | [] => "bad-line"
 
